@@ -447,6 +447,52 @@ class Check:
         return 1 if self.violations else 0
 
 
+# observers that can judge the events stored in a replay artefact of each property
+_OBSERVERS = {
+    "C01": ["ObsRelayTrace"], "C02": ["ObsPoolTrace"], "C03": ["ObsFaultsTrace"],
+    "C04": ["ObsPoolTrace", "ObsHealthRaceTrace"], "C05": ["ObsPoolTrace", "DistObs"], "C06": ["ObsPoolTrace", "DistObs"],
+    "C07": ["ObsBreakerTrace"], "C08": ["ObsBreakerTrace"], "C09": ["ObsLimiterTrace", "DistObs"], "C10": ["ObsAdminTrace"],
+    "C11": ["ObsPoolTrace", "ObsLinTrace"], "C12": ["RaceObs"], "C13": ["ObsPoolTrace", "ObsHealthRaceTrace"],
+    "C14": ["ObsSizeLimitTrace"], "C15": ["ObsGzipTrace"], "C16": ["ObsIdTrace", "ObsIdWireTrace"], "C17": ["ObsChainTrace"],
+    "C18": ["ObsConfigTrace"], "C19": ["ObsShutdownTrace"], "C20": ["ObsWsPoolTrace", "ObsTunnelTrace", "ObsLinPoolTrace"],
+}
+
+
+def replay_artifact(pid, path):
+    """bin/check <ID> --replay <path>: the events stored with a violation (recorded from the real code when the check
+    ran) are judged again by the property's TLA+ observer; prints the clauses it rejects.  Exit 1 if it still rejects
+    them, 0 if not, 2 if no observer of the property accepts the file's format.  (To re-execute the script / case on
+    the current tree run the check itself: the artefact's first lines hold the signature and the script or case.)"""
+    lines = read_ndjson(path)
+    sig = lines[0].get("signature") if lines and "signature" in lines[0] else None
+    body = [e for e in lines if "signature" not in e and "script" not in e]
+    if pid in ("C02", "C04", "C05", "C06", "C11", "C13") and body and body[0].get("ev") == "cfg" and "cfg" in body[0]:
+        sys.path.insert(0, os.path.join(VERIF, "checks"))
+        import pool_common
+        sd = scratch("replay")
+        raw = os.path.join(sd, "raw.ndjson")
+        write_ndjson(raw, body)
+        tp = os.path.join(sd, "t.ndjson")
+        pool_common.project(raw, tp)
+    else:
+        sd = scratch("replay")
+        tp = os.path.join(sd, "t.ndjson")
+        write_ndjson(tp, body)
+    log("replaying %s (%d recorded events)%s" % (path, len(body), "" if sig is None else " signature " + json.dumps(sig, sort_keys=True)[:300]))
+    for mod in _OBSERVERS.get(pid, []):
+        cfg = mod + ".cfg"
+        try:
+            viols, r = observe(mod, cfg, tp, timeout=600)
+        except FrameworkError:
+            continue
+        for v in viols:
+            log("VIOLATION property=%s replay=%s  %s" % (pid, path, json.dumps(v, sort_keys=True)[:400]))
+        log("%s: %d rejected event(s)" % (mod, len(viols)))
+        return 1 if viols else 0
+    log("no observer of %s accepts the format of %s" % (pid, path))
+    return 2
+
+
 def main_wrapper(fn):
     try:
         rc = fn()
